@@ -170,6 +170,41 @@ pub fn run(ctx: &'static Ctx) {
     });
     ctx.engine("E4.pairs", json!({"canonical_children": canon.len(), "programs": n2.load(Ordering::Relaxed)}));
 
+    // ---- family (ii-b): depth-3 chains parent / child constructor / canonical grandchild (quick: every 9th grandchild)
+    let step3 = if quick { 9 } else { 1 };
+    {
+        let n2b = AtomicU64::new(0);
+        let mids: Vec<(usize, usize)> = (0..fixed.len()).flat_map(|c| (0..fixed[c].slots).map(move |s| (c, s))).collect();
+        fixed.par_iter().for_each(|p| {
+            for ps in 0..p.slots {
+                for (mc, ms) in &mids {
+                    let m = &fixed[*mc];
+                    for (_, g) in canon.iter().step_by(step3) {
+                        let mut mk: Vec<T> = (0..m.slots).map(|_| f[0].clone()).collect();
+                        mk[*ms] = g.clone();
+                        let mut pk: Vec<T> = (0..p.slots).map(|_| f[4].clone()).collect();
+                        pk[ps] = (m.build)(&mk);
+                        check(ctx, &p.name, "depth-3 chains", &(p.build)(&pk));
+                        n2b.fetch_add(1, Ordering::Relaxed);
+                    }
+                }
+            }
+        });
+        lcs.par_iter().for_each(|p| {
+            for (mc, ms) in &mids {
+                let m = &fixed[*mc];
+                for (_, g) in canon.iter().step_by(step3) {
+                    let mut mk: Vec<T> = (0..m.slots).map(|_| f[0].clone()).collect();
+                    mk[*ms] = g.clone();
+                    check(ctx, &p.name, "depth-3 chains", &(p.build)(vec![f[2].clone(), (m.build)(&mk)]));
+                    n2b.fetch_add(1, Ordering::Relaxed);
+                }
+            }
+        });
+        ctx.st(n2b.load(Ordering::Relaxed));
+        ctx.engine("E4.depth3", json!({"programs": n2b.load(Ordering::Relaxed)}));
+    }
+
     // ---- family (iii): every nesting triple of the length-prefixed kinds (depth-3 pairs in thorough: with every canonical leaf inside)
     let wr = gen::wrappers();
     let n3 = AtomicU64::new(0);
